@@ -371,7 +371,39 @@ func gen(seed uint64, tier string, o *hx.Out) {
 	}
 	for i := 0; i < nX; i++ {
 		n := genLen(r, 16, maxLen)
+		if i < 8 { // the block boundary and the empty stream, every run
+			n = []int{0, 1, 15, 16, 17, 31, 32, 1024}[i]
+		}
 		emit(fmt.Sprintf("X %d %s %s %s %s %s", next(), hx.Hex(r.Bytes(16)), hx.Hex(r.Bytes(16)), hx.Hex(r.Bytes(n)), schedStr(genSched(r, n)), schedStr(genSched(r, n+16))))
+	}
+	// single writes up to 8192 bytes (the quantifier's upper end): streams long enough that such writes occur,
+	// in every position relative to the writer's one-block cache and the 1 KiB boundary of the old swap buffer
+	nBig := 24
+	if tier == "thorough" {
+		nBig = 300
+	}
+	for i := 0; i < nBig; i++ {
+		bs := r.Pick([]int{8, 16})
+		n := 8192 + r.Intn(3*8192)
+		data := r.Bytes(n)
+		s := padded(data, bs)
+		if r.Intn(6) == 0 {
+			s[len(s)-1-r.Intn(int(s[len(s)-1]))] ^= 0x20 // invalid pad after large writes
+		}
+		var chunks [][]byte
+		rest := s
+		for len(rest) > 0 {
+			k := r.Pick([]int{8192, 8191, 8193 - bs, 4448, 5256, 6000, 7777, 1 + r.Intn(8192), 5000 + r.Intn(3193)})
+			if r.Intn(5) == 0 {
+				k = 1 + r.Intn(bs+1) // a small write between large ones
+			}
+			if k > len(rest) {
+				k = len(rest)
+			}
+			chunks = append(chunks, rest[:k])
+			rest = rest[k:]
+		}
+		emit(fmt.Sprintf("W %d %d %s", next(), bs, hx.HexList(chunks)))
 	}
 }
 
